@@ -126,6 +126,15 @@ add("lang", "block", "{ int gi = 0; { extern long gi; } }", "{ int gf = 0; { ext
 
 add("lang", "file", "struct e%d { _Bool b:2; };", "struct e%d { int a; _Bool :3; };", "union e%d { _Bool b:8; int k; };")
 
+# enumerator values outside a fixed underlying type, written in a type of the other signedness
+add("impl", "file", "enum e%d : unsigned long long { A%d = -1 };", "enum e%d : unsigned long { A%d = -1l };", "enum e%d : long long { A%d = 0xffffffffffffffff };",
+    "enum e%d : short { A%d = 0xffffffffffff8000 };", "enum e%d : int { A%d = 0xffffffffffffffffu };", "enum e%d : long { A%d = 0x8000000000000000 };",
+    "enum e%d : unsigned { A%d = -1 };", "enum e%d : int { A%d = 0xffffffff };", "enum e%d : unsigned char { A%d = -1ll };", "enum e%d : signed char { A%d = 128u };",
+    "enum e%d : unsigned short { A%d = 0x10000 };", "enum e%d : _Bool { A%d = 2 };", "enum e%d : long { A%d = 0x7fffffffffffffff, B%d };")
+
+# the result of the comma operator is not an lvalue and not a null pointer constant, whatever its operands are
+add("lang", "block", "(0, gi) = 1;", "gp = &(0, gi);", "gp = (0, 0);", "(1, 2, gi)++;", "(0, gs).a = 1;", "gp = &(0, garr);"[:0] or "(0, gi) += 2;", "(1 ? gi : gi) = 2;", "gp = &(0 ? gi : gi);", "(1 ? gi : gl)++;")
+
 # ---- unsupported features ------------------------------------------------------------------------------------
 add("unsup", "file", "_Atomic int q%d;", "_Atomic(int) q%d;", "int _Atomic q%d;", "_Complex double q%d;", "double _Complex q%d;", "long double q%d = 1.0L;", "struct __attribute__((aligned(8))) ua%d { char c; };",
     "struct __attribute__((packed)) up%d { int a:3; };", "__attribute__((aligned(8))) int q%d;", "[[gnu::packed]] int q%d;", "__asm__(\"nop\");", "long double q%d(long double a) { return a + 1; }",
